@@ -321,6 +321,10 @@ def cond_name(body, e):
     while e[0] == "un" and e[1] == "Not":
         e = e[2]
         neg = not neg
+    if e[0] == "phi" and isinstance(e[1], int):
+        # a mutable bool local assigned on several paths (`let mut changed = false; .. changed = true; .. if changed`)
+        ns = body.local_names().get(e[1], [])
+        return (ns[0].split("__")[-1] if ns else None), neg
     if e[0] != "path":
         return None, neg
     root, fields = e[1], e[2]
